@@ -561,6 +561,16 @@ def compare_request(sw, dc, conn_d, cr_blind=False):
                 isinstance(a, list) and isinstance(b, list)):
             if a == b and isinstance(a, str) and isinstance(b, str):
                 continue
+            if isinstance(b, list) and isinstance(a, list) and \
+                    (not b or b[0] is None) and len(a) == len(b) and \
+                    all(x is None and y is None or
+                        (isinstance(x, str) and not hasattr(x, 'cimtype') and
+                         y is not None and str(x) == str(y))
+                        for x, y in zip(a, b)):
+                # an array that starts with NULL travels without type; the
+                # server could not type it (its class or method does not
+                # exist): the untyped strings are compared
+                continue
             return 'method parameter %s: server decoded %s (%s), caller ' \
                 'supplied %s (%s)' % (n, _short(a), type(a).__name__,
                                       _short(b), type(b).__name__)
